@@ -137,10 +137,15 @@ static void SetCPUCore(tCPUDef const* pCPUDef, tStrComp const* pCPUArgs) {
         }
     }
 
+    /* MOMCPU/MOMCPUNAME are the global symbols, also when the CPU
+       statement stands in a macro or loop body: */
+
+    PushLocHandle(-1);
     strmaxcpy(TmpCompStr, MomCPUName, sizeof(TmpCompStr));
     EnterIntSymbol(&TmpComp, HCPU, SegNone, True);
     strmaxcpy(TmpCompStr, MomCPUIdentName, sizeof(TmpCompStr));
     EnterStringSymbol(&TmpComp, MomCPUIdent, True);
+    PopLocHandle();
 
     InternSymbol          = Default_InternSymbol;
     IntConstModeIBMNoTerm = False;
@@ -1079,7 +1084,9 @@ static void CodeRESTORE(Word Index) {
         }
         StrCompMkTemp(&TmpComp, TmpCompStr, sizeof(TmpCompStr));
         strmaxcpy(TmpCompStr, ListOnName, sizeof(TmpCompStr));
+        PushLocHandle(-1);
         EnterIntSymbol(&TmpComp, ListOn = Old->SaveListOn, SegNone, True);
+        PopLocHandle();
         SetLstMacroExp(Old->SaveLstMacroExp);
         LstMacroExpModDefault  = Old->SaveLstMacroExpModDefault;
         LstMacroExpModOverride = Old->SaveLstMacroExpModOverride;
@@ -1510,7 +1517,9 @@ static void CodeLISTING(Word Index) {
 
             StrCompMkTemp(&TmpComp, TmpCompStr, sizeof(TmpCompStr));
             strmaxcpy(TmpCompStr, ListOnName, sizeof(TmpCompStr));
+            PushLocHandle(-1);
             EnterIntSymbol(&TmpComp, ListOn = Value, SegNone, True);
+            PopLocHandle();
         }
     }
 }
